@@ -15,19 +15,71 @@ from .report import m_drop_stmt, m_replace
 META = {
     "level": "other",
     "explanation": (
-        "Decides only structural necessary conditions of C18, not the grammar: whole-input consumption before Ok; the literal "
-        "token alphabet of the parser module (collected from the arguments of char/tag/one_of/none_of across all functions "
-        "reachable from parse_vpl, so merging or splitting parser functions does not matter) equals the documented one; the "
-        "node constructor uses what was just parsed; unknown operation names are errors; every factory implementation is "
-        "registered under a unique tag; the derive expansion reads each parameter under its own name with the accessor that "
-        "matches its optionality and propagates accessor errors."),
-    "not_decided": "the grammar itself (ordering/nesting of combinators, whitespace handling, which texts are accepted) — extracting and comparing the combinator tree would be a frozen-structure proxy, interpreting it would be running the parser.",
-    "trusted_base": ["nom combinators", "documented token alphabet transcribed in this module"],
+        "Decides (1) the LANGUAGE of the parser: the nom combinator term reachable from parse_vpl is extracted from the typed HIR into a "
+        "regular expression over characters (a nested pipeline is a letter) and compared with the reference VPL syntax by DFA language "
+        "equivalence (R-GRAMMAR, engine/rules/grammar.py) - any refactoring of the combinators that keeps the language passes, a changed "
+        "language is reported with a shortest text accepted by one side only; and (2) structural necessary conditions for the rest: "
+        "whole-input consumption before Ok; the literal token alphabet; the node constructor uses what was just parsed; unknown operation "
+        "names are errors; every factory implementation is registered under a unique tag; the derive expansion reads each parameter under "
+        "its own name with the accessor that matches its optionality and propagates accessor errors."),
+    "not_decided": "that nom's ordered choice / greedy repetition realises every text of the denoted language (the regular reading over-approximates PEG matching, e.g. it does not model maximal munch of adjacent identifiers), and that the VALUES put into the tree are the matched texts beyond what R-NODE / R-ORDER / R-REQ look at.",
+    "trusted_base": ["nom combinators (their documented meaning, transcribed in grammar.py)", "reference VPL grammar and token alphabet transcribed in this module"],
 }
 
 TOKENS = {"|", "=", "[", "]", ",", '"', "\\", "n", "t", ".-_", "\\\"", "_-"}
 NOM_LIT = ("nom::character::complete::char", "nom::bytes::complete::tag", "nom::character::complete::one_of", "nom::character::complete::none_of",
            "nom::bytes::complete::escaped_transform")
+
+
+def reference_grammar():
+    """the VPL syntax as a regular expression over characters with the nested pipeline as a letter (reviewed against help.md and the
+    parser tests): what the parser must accept, and all it may accept"""
+    from . import grammar as g
+    ws0, ws1 = g.star(g.WS), g.plus(g.WS)
+    ident = g.seq(g.ALPHA, g.star(g.sym(g.ALNUM[1] | {ord("_"), ord("-")})))
+    bare = g.plus(g.sym(g.ALNUM[1] | {ord("."), ord("-"), ord("_")}))
+    string = g.seq(g.lit('"'), g.star(g.alt(g.sym(g.UNIVERSE - {ord("\\"), ord('"')}), g.seq(g.lit("\\"), g.cls('\\"nt')))), g.lit('"'))
+    elem = g.alt(string, bare)
+    array = g.seq(g.lit("["), ws0, g.sep0(g.seq(ws0, g.lit(","), ws0), elem), ws0, g.lit("]"))
+    value = g.alt(string, bare, array)
+    prop = g.seq(ident, ws0, g.lit("="), ws0, value)
+    sources = g.opt(g.seq(g.lit("["), ws0, g.sep0(g.lit(","), g.nt("parse_pipeline")), ws0, g.lit("]")))
+    node = g.seq(ws0, ident, ws0, g.sep0(ws1, prop), ws0, sources, ws0)
+    return g.seq(ws0, g.sep1(g.lit("|"), node), ws0)
+
+
+def grammar_rule(ck, P, pv):
+    """R-GRAMMAR: the set of texts the combinator term of parse_vpl denotes is the VPL syntax — decided as equality of regular languages
+    (the recursive reference to a nested pipeline is a letter), see grammar.py.  Robust to any refactoring of the combinators that keeps
+    the language; a changed language comes with a shortest text that is accepted by one side only."""
+    from . import grammar as g
+    b = pv[0]
+    mod = b["q"].rsplit("::", 1)[0]
+
+    def is_parser_fn(q):
+        fb = P.fn(q)
+        return q.startswith(mod + "::") and fb is not None and "nom::Err" in (fb.get("out_t") or "")
+    ac = [n for n in ir.walk_nodes(b["body"]) if n.get("k") == "call" and (n.get("q") or "") == "nom::combinator::all_consuming"]
+    if not ck.anchor("R-GRAMMAR", "all_consuming(..) in parse_vpl", ac, 1):
+        return
+    ex = g.Extractor(P, is_parser_fn)
+    try:
+        got = ex.term(ac[0])
+        ref = reference_grammar()
+        res = g.equivalent(got, ref)
+    except g.Unextractable as e:
+        ck.violation("R-GRAMMAR", mod + "|language", "the grammar of the VPL parser could not be extracted, so its language is not decided: %s" % e, ir.loc(b))
+        return
+    ck.anchor("R-GRAMMAR", "parser functions read by the extractor", ex.functions, 10)
+    ck.anchor("R-GRAMMAR", "combinators translated", ex.combinators, 40)
+    if res[0]:
+        ck.ok("R-GRAMMAR", mod + "|language", "the combinator term of parse_vpl denotes exactly the VPL syntax: %d parser functions, %d combinators, regex sizes %d / %d, %d character classes, "
+              "%d pairs of DFA states compared; recursion through %s" % (len(ex.functions), ex.combinators, g.size(got), g.size(ref), res[1]["alphabet_classes"], res[1]["dfa_pairs"],
+                                                                   sorted(x.rsplit("::", 1)[-1] for x in ex.cycles)), ir.loc(b))
+    else:
+        _, w, by_parser, st = res
+        ck.violation("R-GRAMMAR", mod + "|language", "the language of the parser differs from the VPL syntax: the text `%s` is %s (%s = a nested pipeline; shortest such text)" %
+                     (w, "accepted by the parser's grammar but is not VPL" if by_parser else "valid VPL but not accepted by the parser's grammar", "<parse_pipeline>"), ir.loc(b))
 
 
 def rules(ck, P):
@@ -48,6 +100,7 @@ def rules(ck, P):
                     guard = gi is not None and oi is not None and gi < oi
     ck.check(len(ac) == 1 and bool(oks) and guard, "R-CONSUME", b["q"], "Ok(pipeline) is produced only from all_consuming(..) and after the leftover-is-empty guard",
              "Ok is not dominated by whole-input consumption (all_consuming: %d, leftover guard: %s)" % (len(ac), guard), ir.loc(b))
+    grammar_rule(ck, P, pv)
     errs = 0
     for n in ir.walk_nodes(b["body"]):
         if n.get("k") == "match":
